@@ -970,3 +970,260 @@ Section Rank.
       rewrite L1 in R1. rewrite L2 in R2. destruct R1, R2. eapply rank_equiv; eauto.
   Qed.
 End Rank.
+
+(* ================================================================== *)
+(* G. visible entries are distinct                                    *)
+(* ================================================================== *)
+Lemma NoDup_app_intro : forall A (l1 l2 : list A), NoDup l1 -> NoDup l2 ->
+  (forall x, In x l1 -> In x l2 -> False) -> NoDup (l1 ++ l2).
+Proof.
+  induction l1 as [|x l1 IH]; simpl; intros l2 N1 N2 H; auto.
+  inversion N1; subst. constructor.
+  - intros Hin. apply in_app_or in Hin. destruct Hin; auto. eapply H; eauto.
+  - apply IH; auto. intros; eapply H; eauto.
+Qed.
+
+Lemma NoDup_app_inv : forall A (l1 l2 : list A), NoDup (l1 ++ l2) -> NoDup l1 /\ NoDup l2.
+Proof.
+  induction l1 as [|x l1 IH]; simpl; intros l2 N.
+  - split; auto. constructor.
+  - inversion N; subst. destruct (IH _ H2). split; auto. constructor; auto.
+    intros Hin. apply H1. apply in_or_app. auto.
+Qed.
+
+Lemma NoDup_filter : forall A (p : A -> bool) l, NoDup l -> NoDup (filter p l).
+Proof.
+  induction 1; simpl; [constructor|]. destruct (p x); auto. constructor; auto.
+  intros Hin. apply filter_In in Hin. tauto.
+Qed.
+
+Lemma In_entries_from : forall fi l off e, In e (entries_from fi off l) ->
+  fst (e_pos e) = fi /\ off <= snd (e_pos e) /\ In (e_stream e) l.
+Proof.
+  induction l as [|s l IH]; simpl; intros off e H; [contradiction|].
+  destruct H as [<-|H]; simpl; auto.
+  destruct (IH _ _ H) as (? & ? & ?). repeat split; auto. lia.
+Qed.
+
+Lemma NoDup_entries_from : forall fi l off, NoDup (entries_from fi off l).
+Proof.
+  induction l as [|s l IH]; simpl; intros off; constructor; auto.
+  intros H. apply In_entries_from in H. simpl in H. lia.
+Qed.
+
+Lemma In_visible_from : forall fs fi e, In e (visible_from fi fs) ->
+  fi <= fst (e_pos e) /\ superseded fs (e_stream e) = true.
+Proof.
+  induction fs as [|f newer IH]; simpl; intros fi e H; [contradiction|].
+  apply in_app_or in H. destruct H as [H|H].
+  - destruct (IH _ _ H) as [H1 H2]. split; [lia|]. unfold superseded in *. simpl. rewrite H2. apply orb_true_r.
+  - apply filter_In in H. destruct H as [H _]. apply In_entries_from in H. destruct H as (H1 & _ & H3).
+    split; [lia|]. unfold superseded. simpl. apply orb_true_iff. left.
+    unfold file_contains. apply existsb_exists. exists (e_stream e). split; auto. apply N.eqb_refl.
+Qed.
+
+Lemma NoDup_visible_from : forall fs fi, NoDup (visible_from fi fs).
+Proof.
+  induction fs as [|f newer IH]; simpl; intros fi; [constructor|].
+  apply NoDup_app_intro; auto.
+  - apply NoDup_filter. apply NoDup_entries_from.
+  - intros e H1 H2. apply In_visible_from in H1. apply filter_In in H2. destruct H2 as [H2 _].
+    apply In_entries_from in H2. lia.
+Qed.
+
+(* each stream id at most once, when no file stores an id twice *)
+Definition e_id (e : entry) : N := s_id (e_stream e).
+
+Lemma NoDup_visible_ids : forall fs fi, Forall (fun f => NoDup (map s_id (f_streams f))) fs ->
+  NoDup (map e_id (visible_from fi fs)).
+Proof.
+  induction fs as [|f newer IH]; simpl; intros fi Hf; [constructor|].
+  inversion Hf; subst. rewrite map_app. apply NoDup_app_intro; auto.
+  - clear IH Hf H2. revert H1. generalize 0. generalize (f_streams f).
+    induction l as [|s l IHl]; simpl; intros off N; [constructor|].
+    inversion N; subst. unfold e_stream at 1. simpl.
+    destruct (negb (superseded newer s)); simpl; auto.
+    constructor; auto. intros Hin. apply in_map_iff in Hin. destruct Hin as (e & E & Hin).
+    apply filter_In in Hin. destruct Hin as [Hin _]. apply In_entries_from in Hin.
+    apply H1. unfold e_id in E. simpl in E. rewrite <- E. apply in_map. tauto.
+  - intros id H3 H4. apply in_map_iff in H3. destruct H3 as (e1 & E1 & H3).
+    apply in_map_iff in H4. destruct H4 as (e2 & E2 & H4).
+    apply In_visible_from in H3. destruct H3 as [_ H3].
+    apply filter_In in H4. destruct H4 as [_ H4].
+    assert (superseded newer (e_stream e2) = true).
+    { unfold superseded in *. rewrite <- H3. apply existsb_ext_in. intros f' _. unfold file_contains.
+      apply existsb_ext_in. intros s _. unfold e_id in *. rewrite E1, E2. auto. }
+    rewrite H in H4. discriminate.
+Qed.
+
+(* ================================================================== *)
+(* H. the theorems about search_algo (patched variant)                *)
+(* ================================================================== *)
+Section Final.
+  Variable fs : list (file * list qpart).
+  Variable keys : list sorting.
+  Variable limit skip : nat.
+  Variable idok sat : stream -> bool.
+  Hypothesis Hok : Forall (file_ok sat) fs.
+
+  Notation ks := (effective_sorting keys).
+  Notation less := (entry_less (effective_sorting keys)).
+  Notation Mall := (spec_matching (map fst fs) idok sat).
+  Notation acc_end := (search_files v_fixed (effective_sorting keys) (limit + skip) idok 0 fs acc0).
+  Notation res := (search_algo v_fixed fs keys limit skip idok).
+
+  Lemma final_inv : Inv less (limit + skip) Mall acc_end.
+  Proof. apply (search_files_inv ks (limit + skip) idok (sat := sat) 0 Hok). Qed.
+
+  Lemma res_unfold : res = if Nat.leb (length (a_streams acc_end)) skip then ([], false)
+                           else (skipn skip (a_streams acc_end), negb (N.eqb (a_dropped acc_end) 0)).
+  Proof. reflexivity. Qed.
+
+  Theorem algo_sorted : sorted less (fst res).
+  Proof.
+    rewrite res_unfold. destruct final_inv as (rest & _ & HS & _).
+    destruct (Nat.leb _ skip); simpl; [constructor|]. apply sorted_skipn; auto.
+  Qed.
+
+  Theorem algo_sound : forall e, In e (fst res) -> In e Mall.
+  Proof.
+    intros e. rewrite res_unfold. destruct final_inv as (rest & HP & _).
+    destruct (Nat.leb _ skip); simpl; [contradiction|]. intros H.
+    apply (Permutation_in _ (Permutation_sym HP)). apply in_or_app. left.
+    rewrite <- (firstn_skipn skip (a_streams acc_end)). apply in_or_app. auto.
+  Qed.
+
+  Lemma NoDup_map_perm_sub : forall (g : entry -> N) M l rest, Permutation M (l ++ rest) ->
+    NoDup (map g M) -> NoDup (map g l).
+  Proof.
+    intros g M l rest HP N. apply (Permutation_map g) in HP. rewrite map_app in HP.
+    apply (Permutation_NoDup HP) in N. apply NoDup_app_inv in N. tauto.
+  Qed.
+
+  Lemma NoDup_map_skipn : forall (g : entry -> N) n l, NoDup (map g l) -> NoDup (map g (skipn n l)).
+  Proof.
+    intros g n l N. rewrite <- (firstn_skipn n l), map_app in N. apply NoDup_app_inv in N. tauto.
+  Qed.
+
+  Lemma NoDup_map_filter : forall (g : entry -> N) p l, NoDup (map g l) -> NoDup (map g (filter p l)).
+  Proof.
+    induction l as [|x l IH]; simpl; intros N; auto. inversion N; subst.
+    destruct (p x); simpl; auto. constructor; auto.
+    intros Hin. apply in_map_iff in Hin. destruct Hin as (y & E & Hy). apply filter_In in Hy.
+    apply H1. rewrite <- E. apply in_map. tauto.
+  Qed.
+
+  (* no stream id twice *)
+  Theorem algo_nodup : Forall (fun f => NoDup (map s_id (f_streams f))) (map fst fs) ->
+    NoDup (map e_id (fst res)).
+  Proof.
+    intros Hf. rewrite res_unfold. destruct final_inv as (rest & HP & _).
+    destruct (Nat.leb _ skip); simpl; [constructor|].
+    apply NoDup_map_skipn. eapply NoDup_map_perm_sub; [apply HP|].
+    unfold spec_matching. apply NoDup_map_filter. apply NoDup_visible_ids; auto.
+  Qed.
+
+  Lemma acc_length : (limit = 0 -> skip = 0) ->
+    length (a_streams acc_end) = if Nat.eqb (limit + skip) 0 then length Mall else Nat.min (limit + skip) (length Mall).
+  Proof.
+    intros Hls. destruct final_inv as (rest & HP & _ & _ & _ & HL0 & HL).
+    pose proof (Permutation_length HP) as Hlen. rewrite app_length in Hlen.
+    destruct (Nat.eqb_spec (limit + skip) 0) as [E|E].
+    - rewrite (HL0 E) in Hlen. simpl in Hlen. lia.
+    - destruct (HL E) as [H1 H2]. destruct rest as [|x rest]; simpl in *; [lia|].
+      assert (length (a_streams acc_end) = limit + skip) by (apply H2; discriminate). lia.
+  Qed.
+
+  Theorem algo_length : (limit = 0 -> skip = 0) ->
+    length (fst res) = if Nat.eqb limit 0 then length Mall - skip else Nat.min limit (length Mall - skip).
+  Proof.
+    intros Hls. pose proof (acc_length Hls) as HA. rewrite res_unfold.
+    destruct (Nat.leb_spec (length (a_streams acc_end)) skip) as [Hle|Hgt]; simpl.
+    - destruct (Nat.eqb_spec limit 0) as [E|E].
+      + pose proof (Hls E) as Es. rewrite E, Es in *. simpl in *. lia.
+      + destruct (Nat.eqb_spec (limit + skip) 0); lia.
+    - rewrite skipn_length. destruct (Nat.eqb_spec limit 0) as [E|E].
+      + pose proof (Hls E) as Es. rewrite E, Es in *. simpl in *. lia.
+      + destruct (Nat.eqb_spec (limit + skip) 0); lia.
+  Qed.
+
+  Theorem algo_more : snd res = spec_more (map fst fs) limit skip idok sat.
+  Proof.
+    rewrite res_unfold. unfold spec_more.
+    destruct final_inv as (rest & HP & _ & _ & HD & HL0 & HL).
+    pose proof (Permutation_length HP) as Hlen. rewrite app_length in Hlen.
+    destruct (Nat.leb_spec (length (a_streams acc_end)) skip) as [Hle|Hgt]; simpl.
+    - destruct (Nat.eqb_spec limit 0) as [E|E]; simpl; auto.
+      assert (E' : limit + skip <> 0) by lia. destruct (HL E') as [H1 H2].
+      destruct rest as [|x rest]; simpl in *.
+      + symmetry. apply Nat.ltb_ge. lia.
+      + assert (length (a_streams acc_end) = limit + skip) by (apply H2; discriminate). lia.
+    - destruct (Nat.eq_dec (limit + skip) 0) as [E'|E'].
+      { destruct (Nat.eqb_spec limit 0); [simpl|lia].
+        assert (a_dropped acc_end = 0%N) by (apply HD; auto). rewrite H. auto. }
+      destruct (HL E') as [H1 H2].
+      assert (limit <> 0) by lia.
+      destruct (Nat.eqb_spec limit 0); [lia|]. simpl.
+      destruct rest as [|x rest]; simpl in *.
+      + assert (a_dropped acc_end = 0%N) by (apply HD; auto). rewrite H0. simpl.
+        symmetry. apply Nat.ltb_ge. lia.
+      + assert (length (a_streams acc_end) = limit + skip) by (apply H2; discriminate).
+        assert (a_dropped acc_end <> 0%N) by (intros E; apply HD in E; discriminate).
+        destruct (N.eqb_spec (a_dropped acc_end) 0); [contradiction|]. simpl.
+        symmetry. apply Nat.ltb_lt. lia.
+  Qed.
+
+  (* Everything that matches and is not on the page is either one of the [skip] entries in front
+     of it (none of them after a page entry) or not before any page entry. *)
+  Theorem algo_complete : (limit = 0 -> skip = 0) ->
+    exists before after,
+      Permutation Mall (before ++ fst res ++ after) /\
+      (fst res <> [] -> length before = skip) /\
+      (forall x y, In x before -> In y (fst res) -> less y x = false) /\
+      (forall x y, In x after -> In y (fst res) -> less x y = false) /\
+      (limit = 0 -> after = []).
+  Proof.
+    intros Hls. rewrite res_unfold. destruct final_inv as (rest & HP & HS & HR & HD & HL0 & HL).
+    destruct (Nat.leb_spec (length (a_streams acc_end)) skip) as [Hle|Hgt]; simpl.
+    - exists Mall, []. rewrite app_nil_r. repeat split; auto; try contradiction; try congruence.
+    - exists (firstn skip (a_streams acc_end)), rest.
+      split; [rewrite app_assoc, firstn_skipn; auto|].
+      split; [intros _; rewrite firstn_length; lia|].
+      split.
+      + intros x y Hx Hy. rewrite <- (firstn_skipn skip (a_streams acc_end)) in HS.
+        destruct (sorted_app_inv _ _ HS) as (_ & _ & H). apply (H x y); auto.
+      + split.
+        * intros x y Hx Hy. apply HR; auto.
+          rewrite <- (firstn_skipn skip (a_streams acc_end)). apply in_or_app. auto.
+        * intros E. apply HL0. rewrite E, (Hls E). auto.
+  Qed.
+
+  (* the page equals the specified page up to the order inside tie classes *)
+  Theorem algo_page_equiv : (limit = 0 -> skip = 0) ->
+    Forall2 (equiv less) (fst res) (spec_page (map fst fs) keys limit skip idok sat).
+  Proof.
+    intros Hls. pose proof (acc_length Hls) as HA.
+    destruct final_inv as (rest & HP & HS & HR & _).
+    destruct (sort_entries_spec (swo_entry_less ks) Mall) as [FS FP].
+    pose proof (@sorted_prefix_equiv _ (swo_entry_less ks) _ _ _ _ HS HR HP FS (Permutation_sym FP)) as HE.
+    pose proof (Permutation_length FP) as HFl.
+    apply (Forall2_skipn skip) in HE. rewrite skipn_firstn_comm in HE.
+    unfold spec_page, spec_full. rewrite res_unfold.
+    set (full := sort_entries less Mall) in *.
+    assert (Hsl : length (skipn skip full) = length Mall - skip) by (rewrite skipn_length; lia).
+    destruct (Nat.leb_spec (length (a_streams acc_end)) skip) as [Hle|Hgt]; simpl.
+    - assert (Hz : length Mall <= skip).
+      { destruct (Nat.eqb_spec (limit + skip) 0); [lia|].
+        destruct (Nat.eq_dec limit 0) as [E|E]; [pose proof (Hls E) as Es; rewrite E, Es in *; lia|lia]. }
+      assert (skipn skip full = []) by (apply length_zero_iff_nil; lia).
+      rewrite H. destruct (Nat.eqb limit 0); simpl; try rewrite firstn_nil; constructor.
+    - destruct (Nat.eqb_spec limit 0) as [E|E].
+      + pose proof (Hls E) as Es. rewrite E, Es in *. simpl in *. rewrite HA in HE. rewrite Nat.sub_0_r in HE.
+        rewrite firstn_all2 in HE; auto. lia.
+      + destruct (Nat.eqb_spec (limit + skip) 0); [lia|]. rewrite HA in HE.
+        destruct (Nat.le_ge_cases (limit + skip) (length Mall)) as [Hc|Hc].
+        * rewrite Nat.min_l in HE; auto. replace (limit + skip - skip) with limit in HE by lia. auto.
+        * rewrite Nat.min_r in HE; auto.
+          rewrite firstn_all2 in HE; [|lia]. rewrite firstn_all2; [auto|lia].
+  Qed.
+End Final.
